@@ -394,19 +394,22 @@ def program(chk, repo):
             t = ast.parse(gt[0], mode="eval").body
         except SyntaxError:
             return False
-        b = match("self.packetSize >= self.packet.size + $h", t) or match(
-            "self.packetSize >= $h + self.packet.size", t)
+        b = match("self.packetSize >= $b", t) or match(
+            "$b <= self.packetSize", t)
         if b is None:
             return False
-        h = b["h"]
-        if isinstance(h, ast.Attribute) and h.attr == "ETHERNET_HEADER":
-            try:
-                return Evaluator(repo, f._module).class_attr(
-                    repo.cls("ebpfcat.ethercat.Packet"),
-                    "ETHERNET_HEADER") == 14
-            except Unknown:
-                return False
-        return int_const(h) == 14
+        # the bound, folded for three packet sizes: size + Ethernet header
+        spc = repo.cls(C + "SterilePacket")
+        fgc = repo.cls(C + "FastSyncGroup")
+        try:
+            for n_ in (0, 60, 1486):
+                me = Obj(fgc, {"packet": Obj(spc, {"size": n_})})
+                if Evaluator(repo, f._module, fgc).eval(
+                        b["b"], {"self": me}) != n_ + 14:
+                    return False
+        except (Unknown, Raised):
+            return False
+        return True
     ok = whole_frame(act[0].guard_text()) and act[0].guard_text() == \
         devs[0].guard_text() and act[0].node.lineno < devs[0].node.lineno
     chk.ob("R21.3", sym, "activate, then the device programs, inside one "
